@@ -72,6 +72,7 @@ type stats struct {
 	Samples     []json.RawMessage `json:"samples"`
 	Violations  []Violation       `json:"violations"`
 	Notes       map[string]string `json:"notes"`
+	Events      map[int]uint64    `json:"events"`
 	dset        map[uint64]struct{}
 	AbortedAt   int    `json:"aborted_at"` // run index at which a hang forced the worker to stop, -1 otherwise
 	Fatal       string `json:"fatal"`      // harness self-check failure (exit 2)
@@ -80,7 +81,7 @@ type stats struct {
 const distinctCap = 3000000
 
 func newStats() *stats {
-	return &stats{Counters: map[string]int64{}, dset: map[uint64]struct{}{}, Notes: map[string]string{}, AbortedAt: -1}
+	return &stats{Counters: map[string]int64{}, dset: map[uint64]struct{}{}, Notes: map[string]string{}, Events: map[int]uint64{}, AbortedAt: -1}
 }
 
 // Eval counts one evaluated case; h identifies it for the distinct count and
@@ -97,6 +98,14 @@ func (c *Ctx) Eval(h uint64, nontrivial bool) {
 // EvalN counts n evaluations that are not individually hashed (exhaustive
 // sweeps); they do not contribute to distinct_nontrivial.
 func (c *Ctx) EvalN(n int64) { c.st.Evaluations += n }
+
+// Event folds a string into this run's event-log digest; the digests of all
+// runs are combined into coverage.event_log_hash, which must be identical for
+// identical VERIF_SEED whatever the worker count or GOMAXPROCS (determinism
+// self-test).
+func (c *Ctx) Event(s string) {
+	c.st.Events[c.Run] = Hash64([]byte(fmt.Sprintf("%x|%s", c.st.Events[c.Run], s)))
+}
 
 func (c *Ctx) Steps(n int64)            { c.st.Steps += n }
 func (c *Ctx) Count(name string, n int) { c.st.Counters[name] += int64(n) }
@@ -193,7 +202,10 @@ func envSeed() uint64 {
 //	prog <tier>                 run the check (tier quick|thorough)
 //	prog -replay <file>         re-execute a replay file
 //	prog -worker k/W ...        internal
-func Main(specs map[string]*Spec) {
+func Main(specs map[string]*Spec) { os.Exit(MainCode(specs)) }
+
+// MainCode is Main without the exit, for engines that must clean up.
+func MainCode(specs map[string]*Spec) int {
 	prop := flag.String("prop", "", "property id")
 	worker := flag.String("worker", "", "internal: k/W")
 	out := flag.String("out", "", "internal: result file")
@@ -209,18 +221,18 @@ func Main(specs map[string]*Spec) {
 		*tier = "quick"
 	}
 	if *replay != "" {
-		os.Exit(doReplay(specs, *replay))
+		return doReplay(specs, *replay)
 	}
 	spec := specs[*prop]
 	if spec == nil {
 		fmt.Fprintf(os.Stderr, "unknown property %q\n", *prop)
-		os.Exit(2)
+		return 2
 	}
 	seed := envSeed()
 	if *worker != "" {
-		os.Exit(doWorker(spec, *tier, seed, *worker, *from, *out, *nruns))
+		return doWorker(spec, *tier, seed, *worker, *from, *out, *nruns)
 	}
-	os.Exit(doMain(spec, *tier, seed, *nruns))
+	return doMain(spec, *tier, seed, *nruns)
 }
 
 func runGuarded(spec *Spec, c *Ctx, f func()) {
@@ -278,6 +290,13 @@ func doMain(spec *Spec, tier string, seed uint64, nruns int) int {
 	if w <= 0 {
 		w = runtime.NumCPU()
 	}
+	if v, err := strconv.Atoi(os.Getenv("VERIF_WORKERS")); err == nil && v > 0 {
+		w = v
+	}
+	gmp := "2"
+	if v := os.Getenv("VERIF_GOMAXPROCS"); v != "" {
+		gmp = v
+	}
 	n := spec.NumRuns(tier)
 	if nruns > 0 {
 		n = nruns
@@ -319,7 +338,7 @@ func doMain(spec *Spec, tier string, seed uint64, nruns int) int {
 				}
 				cmd := exec.Command(self, args...)
 				cmd.Stderr = os.Stderr
-				cmd.Env = append(os.Environ(), "VERIF_SEED="+strconv.FormatUint(seed, 10), "GOMAXPROCS=2")
+				cmd.Env = append(os.Environ(), "VERIF_SEED="+strconv.FormatUint(seed, 10), "GOMAXPROCS="+gmp)
 				done := make(chan error, 1)
 				if err := cmd.Start(); err != nil {
 					ch <- res{nil, err}
@@ -394,6 +413,10 @@ func doMain(spec *Spec, tier string, seed uint64, nruns int) int {
 		}
 		seenKey[v.Key] = true
 		nviol++
+		if nviol > 8 {
+			// further distinct violations are counted, not replay-confirmed
+			continue
+		}
 		path, rerr := writeReplay(spec, tier, seed, v)
 		if rerr != nil {
 			fmt.Fprintln(os.Stderr, rerr)
@@ -430,6 +453,9 @@ func mergeStats(a, b *stats) {
 	}
 	for k, v := range b.Notes {
 		a.Notes[k] = v
+	}
+	for k, v := range b.Events {
+		a.Events[k] = v
 	}
 	for _, h := range b.Distinct {
 		if len(a.dset) < distinctCap {
@@ -555,6 +581,19 @@ func writeEvidence(spec *Spec, tier string, seed uint64, st *stats, wall float64
 	cov["distinct_states_measure"] = spec.StateMetric
 	cov["components"] = spec.Components
 	cov["workers"] = workers
+	{
+		runs := make([]int, 0, len(st.Events))
+		for r := range st.Events {
+			runs = append(runs, r)
+		}
+		sort.Ints(runs)
+		var sb strings.Builder
+		for _, r := range runs {
+			fmt.Fprintf(&sb, "%d:%x;", r, st.Events[r])
+		}
+		cov["event_log_hash"] = fmt.Sprintf("%016x", Hash64([]byte(sb.String())))
+		cov["event_log_runs"] = len(runs)
+	}
 	if len(st.Notes) > 0 {
 		cov["notes"] = st.Notes
 	}
